@@ -85,7 +85,10 @@ def case_strategy(draw, tier, shard=0, nshards=1):
         if c["mol"]["kind"] == "LiH":
             c["norb_frozen"] = draw(st.sampled_from([0, 1]))
         if method in ("rhf", "rhf-uhf-trial"):
-            c["basis_choice"] = draw(st.sampled_from(["mo", "mo", "lowdin", "rotated"])) if c["norb_frozen"] == 0 else "mo"
+            # with a frozen core only rotations among the active orbitals keep the mean-field determinant representable
+            c["basis_choice"] = draw(st.sampled_from(["mo", "mo", "lowdin", "rotated"])) if c["norb_frozen"] == 0 else draw(st.sampled_from(["mo", "rotated-active", "rotated-active"]))
+        elif method == "ccsd" and c["norb_frozen"]:
+            c["basis_choice"] = "mo"
         c["walker_type"] = "uhf" if method == "rhf-uhf-trial" else draw(st.sampled_from(["rhf", "uhf"]))
     elif method == "rohf":
         c["mol"] = draw(mol_strategy(["OH", "Hchain"]))
@@ -94,6 +97,8 @@ def case_strategy(draw, tier, shard=0, nshards=1):
             c["mol"]["basis"] = "sto-3g"
         else:
             c["norb_frozen"] = draw(st.sampled_from([0, 1]))
+            if c["norb_frozen"]:
+                c["basis_choice"] = draw(st.sampled_from(["mo", "rotated-active"]))
         c["walker_type"] = "uhf"
     elif method in ("uhf", "uccsd"):
         c["mol"] = draw(mol_strategy(["OH", "Hchain", "Hchain"]))
@@ -207,6 +212,12 @@ def body(ctx, case):
         rng = np.random.default_rng(int(case["rot_seed"]))
         q, _ = np.linalg.qr(rng.normal(size=(mol.nao, mol.nao)))
         basis_coeff = mf.mo_coeff @ q
+    elif case["basis_choice"] == "rotated-active":
+        rng = np.random.default_rng(int(case["rot_seed"]))
+        q, _ = np.linalg.qr(rng.normal(size=(mol.nao - nfrozen, mol.nao - nfrozen)))
+        R = np.eye(mol.nao)
+        R[nfrozen:, nfrozen:] = q
+        basis_coeff = mf.mo_coeff @ R
     elif m == "lattice":
         basis_coeff = np.eye(int(case["lattice"]["n"]))
     trial_opt = {"rhf": "rhf", "rhf-uhf-trial": "uhf", "df-rhf": "rhf", "rohf": "uhf", "uhf": "uhf", "ccsd": "cisd", "uccsd": "ucisd", "lattice": "uhf"}[m]
